@@ -1,0 +1,18 @@
+//go:build verif
+
+// Verification hook (build tag verif only): lets the /verif binder harness schedule lock
+// acquisitions of the per-GPU-group mutex deterministically. With the tag off,
+// verif_hook_off.go provides an empty verifHook and none of this is compiled.
+
+package group_mutex
+
+// VerifHook, when set, is called with op "lock" before a goroutine starts acquiring the mutex
+// of a group (the harness may block here until its schedule grants the acquisition) and with
+// op "released" after the mutex of a group has been released.
+var VerifHook func(op string, group string)
+
+func verifHook(op string, group string) {
+	if VerifHook != nil {
+		VerifHook(op, group)
+	}
+}
